@@ -141,12 +141,38 @@ class RefIconv:
             self.libc.iconv_close.argtypes = [ctypes.c_void_p]
         self.cds = {}
 
+    # conversions whose descriptor may be kept: nothing in them survives `iconv(cd, NULL, NULL, NULL, NULL)`.  glibc's UTF-16 / UTF-32 /
+    # UCS-2 / UNICODE decoders remember the byte order a BOM once selected ACROSS a reset, so a cached descriptor answers later inputs
+    # differently from the fresh one lib/iconv.py opens for every call: those get a fresh descriptor per conversion (closed by `convert`).
+    KEEP = {'EUC-TW', 'KOI8-T', 'KOI8-RU', 'VISCII', 'GEORGIAN-PS', 'UTF-8', 'UTF-32LE', 'WCHAR_T', 'ISO-8859-1', 'CP1252'}
+
     def cd(self, to, frm):
         key = (to, frm)
+        if to.upper() not in self.KEEP or frm.upper() not in self.KEEP:
+            if self.cds.get(key, 0) is None:
+                return None
+            h = self.libc.iconv_open(to.encode('ascii'), frm.encode('ascii'))
+            if h is None or h == ctypes.c_void_p(-1).value:
+                self.cds[key] = None
+                return None
+            self.fresh = h
+            return h
         if key not in self.cds:
             h = self.libc.iconv_open(to.encode('ascii'), frm.encode('ascii'))
             self.cds[key] = None if (h is None or h == ctypes.c_void_p(-1).value) else h
         return self.cds[key]
+
+    def available(self, to, frm):
+        cd = self.cd(to, frm)
+        if cd is None:
+            return False
+        self.release(cd)
+        return True
+
+    def release(self, cd):
+        if getattr(self, 'fresh', None) == cd and cd is not None:
+            self.libc.iconv_close(cd)
+            self.fresh = None
 
     def convert(self, to, frm, data):
         """{'rc': ok|eilseq|einval|e2big|errno N|unavailable, 'consumed', 'main': bytes, 'flush': bytes}"""
@@ -155,6 +181,12 @@ class RefIconv:
         cd = self.cd(to, frm)
         if cd is None:
             return {'rc': 'unavailable'}
+        try:
+            return self._convert(cd, data)
+        finally:
+            self.release(cd)
+
+    def _convert(self, cd, data):
         M1 = ctypes.c_size_t(-1).value
         self.libc.iconv(cd, None, None, None, None)
         cap = 8 * len(data) + 64
@@ -929,7 +961,7 @@ def build_streams(chk, names, sizes):
     R = ref()
     if R.ok:
         for enc in REAL_LOOP_ENCODINGS:
-            if R.cd('WCHAR_T', enc) is None:
+            if not R.available('WCHAR_T', enc):
                 continue
             pool = G.byte_strings_euctw(rng, sizes['real_loop'], plane_sample=sizes['real_loop']) if enc == 'EUC-TW' \
                 else G.byte_strings_single(rng, sizes['real_loop'])
@@ -969,7 +1001,7 @@ def build_streams(chk, names, sizes):
     fam['loader'] = (lines, outs)
     # ---- EUC-TW: the structural model against the tool's codec; the CNS tables are asked of iconv unit by unit
     lines, outs = [], []
-    if R.ok and R.cd('UTF-32LE', 'EUC-TW') is not None:
+    if R.ok and R.available('UTF-32LE', 'EUC-TW'):
         seen_text = set()
         for b in [x for c, x in CORPUS_BYTES if c == 'EUC-TW'] + G.byte_strings_euctw(rng, sizes['euctw'], plane_sample=sizes['euctw']):
             if not b:
@@ -999,7 +1031,7 @@ def build_streams(chk, names, sizes):
     # iconv, dumped by tools/translate/charsetcns2lean.py): no oracle travels with the line.  `rt` = what theorem euctw_roundtrip
     # predicts for encode(decode(b)) == b, compared with what the tool's codec does.
     lines, outs = [], []
-    if R.ok and R.cd('UTF-32LE', 'EUC-TW') is not None:
+    if R.ok and R.available('UTF-32LE', 'EUC-TW'):
         rows = range(0xA1, 0xFF)
         pool = [bytes([a, b]) for a in rows for b in (rows if sizes.get('euctw_all') else rng.sample(list(rows), 12))]
         pool += [bytes.fromhex(h) for h in ('8ea3a1b8', 'a4bf', '8ea1a4bf', '8ea3a1b7', '8ea3a1b9', '8ea2a4a1', '8ea1a4a1', '8eafa1a1', '8eb0a1a1', '8eb1a1a1',
@@ -1046,7 +1078,7 @@ def build_streams(chk, names, sizes):
     # ---- the reference iconv (Spec/CharsetIconv.lean: unit by unit, room checked first, offending unit unconsumed) against
     # the real glibc, CALL BY CALL: every conversion call the tool's loop made above (told = n, 2n, 4n, …) with its return
     # code, the input it consumed and the bytes it wrote; plus KOI8-T through the tool's own binding
-    if R.ok and R.cd('UTF-32LE', 'KOI8-T') is not None:
+    if R.ok and R.available('UTF-32LE', 'KOI8-T'):
         kb = [bytes([x]) for x in range(256)] + [bytes([0x41, x, 0x42]) for x in range(0x80, 0x100, 5)] + G.byte_strings_single(rng, sizes['euctw'] // 6)
         ktexts = set()
         for b in kb:
@@ -1505,7 +1537,7 @@ def falsify_loop(chk, sizes):
     R = ref()
     if R.ok:
         for enc in REAL_LOOP_ENCODINGS:
-            if R.cd('UTF-32LE', enc) is None:
+            if not R.available('UTF-32LE', enc):
                 continue
             pool = G.byte_strings_euctw(rng, sizes['loop_real'], plane_sample=sizes['loop_real']) if enc == 'EUC-TW' \
                 else G.byte_strings_single(rng, sizes['loop_real'])
